@@ -1377,6 +1377,9 @@ def check_batch_keys_and_aliases(repo, chk):
 
 
 def run(repo, chk, tier):
+    from ..cacheown import check_persistent_state
+
+    check_persistent_state(repo, chk, ["tf_pwa/data.py", "tf_pwa/config_loader/data.py", "tf_pwa/root_io.py"])
     chk.rule("K1", "each structural recursion dispatches on exactly its confirmed container kinds (frozen table)")
     chk.rule("K2", "partner functions handle the same kinds; flatten/nest agree on leaf kinds and dict order")
     chk.rule("K3", "each container branch iterates the complete container and recurses on the element")
